@@ -19,6 +19,7 @@ type OSProfile struct {
 	ForceCluster int  // 0 draw, 1 namespaced, 2 cluster-scoped
 	LateCreate   bool // some sets are created by user operations during the run
 	NeverReady   bool // some workloads never become ready / stay stale
+	NoForge      bool // third parties never forge ownership by one of the generated sets
 }
 
 const (
@@ -90,6 +91,7 @@ type OSGen struct {
 	ExpRev   map[string]int64 // expected revision from the chain structure
 	Pool     []poolObj
 	Workload *WorkloadAgent
+	NoForge  bool
 }
 
 func phaseName(i int) string { return []string{"alpha", "bravo", "charlie", "delta"}[i] }
@@ -98,7 +100,7 @@ func phaseName(i int) string { return []string{"alpha", "bravo", "charlie", "del
 func GenOS(w *World, prof OSProfile) *Scenario {
 	s := w.Scn
 	sc := &Scenario{Family: "S-OS", Facts: map[string]any{}}
-	g := &OSGen{ExpRev: map[string]int64{}}
+	g := &OSGen{ExpRev: map[string]int64{}, NoForge: prof.NoForge}
 	sc.Facts["os"] = g
 	switch prof.ForceCluster {
 	case 1:
@@ -125,7 +127,7 @@ func GenOS(w *World, prof OSProfile) *Scenario {
 	}
 
 	nSets := 1 + s.Intn(prof.MaxSets, "nSets")
-	wl := &WorkloadAgent{Cluster: "mgmt", Policy: map[store.Key]string{}}
+	wl := &WorkloadAgent{Cluster: "mgmt", Policy: map[store.Key]string{}, Budget: s.Intn(10, "workload-budget")}
 	g.Workload = wl
 	var specs []store.Obj
 	for i := 0; i < nSets; i++ {
@@ -280,9 +282,49 @@ func GenOS(w *World, prof OSProfile) *Scenario {
 			}
 		}
 	}
+	// intruder targets: every listed object, on the cluster its phase is realised in
+	var targets []intruderTarget
+	seenT := map[string]bool{}
+	for _, o := range specs {
+		for _, so := range SpecObjects(o, nil) {
+			cluster, strategy := "mgmt", "native"
+			if so.Class == "hosted-cluster" {
+				cluster, strategy = "hosted", "annotation"
+			}
+			obj := store.Copy(so.Obj)
+			k := w.normKey(cluster, so.Key)
+			if k.Namespace != "" {
+				store.Meta(obj)["namespace"] = k.Namespace
+			} else {
+				delete(store.Meta(obj), "namespace")
+			}
+			id := cluster + "|" + k.String()
+			if seenT[id] {
+				continue
+			}
+			seenT[id] = true
+			targets = append(targets, intruderTarget{cluster: cluster, strategy: strategy, obj: obj})
+		}
+	}
+	if prof.Preexisting > 0 {
+		for _, t := range targets {
+			if !s.Chance(prof.Preexisting, 10, "preexisting") {
+				continue
+			}
+			cl := w.Cluster(t.cluster)
+			o := store.Copy(t.obj)
+			desc := applyOwnershipState(w, g, cl, t.strategy, o, func(n int, l string) int { return s.Intn(n, "pre-"+l) })
+			if _, err := w.TP("setup", cl).Create(o); err == nil {
+				sc.Desc = append(sc.Desc, "pre-existing "+t.cluster+" "+store.KeyOf(o).String()+": "+desc)
+			}
+		}
+	}
+	if prof.Intruder != "" {
+		w.AddAgent(&IntruderAgent{G: g, Mode: prof.Intruder, Budget: 1 + s.Intn(6, "intruder-budget"), Finalize: prof.Finalizers, Targets: targets})
+	}
 	w.AddAgent(wl)
 	if w.Host != nil {
-		w.AddAgent(&WorkloadAgent{Cluster: "hosted", Policy: wl.Policy})
+		w.AddAgent(&WorkloadAgent{Cluster: "hosted", Policy: wl.Policy, Budget: wl.Budget})
 	}
 	w.AddAgent(&GCAgent{Cluster: "mgmt"})
 	return sc
